@@ -31,7 +31,7 @@ PROP = dict(
               "price_in_range_slack", "price_below_end_at_T", "start_price", "start_record", "reserve_draw_skipped", "limit_fill_overcharge",
               "proceeds_forwarded", "lend_bonus_stranded", "leftover_to_owner", "bid_refused", "leftover_to_owner_after_d7",
               "books_exact_after_d7", "pay_le_target_after_d7", "receive_le_collateral_after_d7", "close_distributes_after_d7",
-              "esm_payout_le_proceeds", "close_distributes_after_esm_trigger", "leftover_to_owner_after_esm_trigger", "lend_close_books", "bid_wrong_denom_refused"],
+              "esm_payout_le_proceeds", "close_distributes_after_esm_trigger", "leftover_to_owner_after_esm_trigger", "lend_close_books", "bid_wrong_denom_refused", "close_branch_split"],
     trusted_base=[KERNEL_TB, HARNESS_TB,
                   "Base/Dec.lean (model of sdk.Dec, validated separately against the real library by harness/dec_test.go)",
                   "Model/DutchPrice.lean is hand-written from x/auction/keeper/math.go:11-31 + dutch.go:495-503,639-656 and "
